@@ -92,3 +92,58 @@ def cli_pkcs7_parses(der):
         return r.returncode == 0
     finally:
         os.unlink(n)
+
+
+def _epoch(ts):
+    import calendar, time
+    return calendar.timegm(time.strptime(ts, "%Y%m%d%H%M%SZ"))
+
+
+def key_cert(name, start, end):
+    """an RSA key and a certificate valid from `start` to `end` (YYYYMMDDHHMMSSZ), issued by the test root with `openssl ca`;
+    returns (DER certificate, key file, notBefore, notAfter as epoch seconds)"""
+    d = pki_dir()
+    der = "%s/%s.der" % (d, name)
+    if not os.path.exists(der):
+        cnf = "%s/ca.cnf" % d
+        if not os.path.exists(cnf):
+            os.makedirs("%s/newcerts" % d, exist_ok=True)
+            open("%s/index.txt" % d, "w").close()
+            open("%s/serial" % d, "w").write("1000\n")
+            open(cnf, "w").write("[ca]\ndefault_ca=c\n[c]\ndir=%s\ndatabase=$dir/index.txt\nnew_certs_dir=$dir/newcerts\nserial=$dir/serial\n"
+                                 "default_md=sha256\npolicy=p\nunique_subject=no\n[p]\ncountryName=optional\norganizationName=optional\n"
+                                 "commonName=supplied\nemailAddress=optional\n" % d)
+        _sh(["openssl", "req", "-newkey", "rsa:2048", "-nodes", "-keyout", "%s/%s.key" % (d, name), "-out", "%s/%s.csr" % (d, name),
+             "-subj", "/C=EE/O=Verif/CN=%s" % name])
+        _sh(["openssl", "ca", "-batch", "-config", cnf, "-cert", "%s/ca.pem" % d, "-keyfile", "%s/ca.key" % d, "-in", "%s/%s.csr" % (d, name),
+             "-out", "%s/%s.pem" % (d, name), "-startdate", start, "-enddate", end, "-notext"])
+        _sh(["openssl", "x509", "-in", "%s/%s.pem" % (d, name), "-outform", "DER", "-out", der])
+    return open(der, "rb").read(), "%s/%s.key" % (d, name), _epoch(start), _epoch(end)
+
+
+def rsa_sign(keyfile, data):
+    d = pki_dir()
+    with tempfile.NamedTemporaryFile(dir=d, delete=False) as f:
+        f.write(data); n = f.name
+    try:
+        return _sh(["openssl", "dgst", "-sha256", "-sign", keyfile, n])
+    finally:
+        os.unlink(n)
+
+
+def ec_cert(name="k_ec"):
+    """a P-256 key and certificate (valid 2010-2100) under the test root"""
+    d = pki_dir()
+    der = "%s/%s.der" % (d, name)
+    if not os.path.exists(der):
+        key_cert("k_wide", "20100101000000Z", "21000101000000Z")       # makes sure the CA configuration exists
+        _sh(["openssl", "ecparam", "-name", "prime256v1", "-genkey", "-noout", "-out", "%s/%s.key" % (d, name)])
+        _sh(["openssl", "req", "-new", "-key", "%s/%s.key" % (d, name), "-out", "%s/%s.csr" % (d, name), "-subj", "/C=EE/O=Verif/CN=%s" % name])
+        _sh(["openssl", "ca", "-batch", "-config", "%s/ca.cnf" % d, "-cert", "%s/ca.pem" % d, "-keyfile", "%s/ca.key" % d, "-in", "%s/%s.csr" % (d, name),
+             "-out", "%s/%s.pem" % (d, name), "-startdate", "20100101000000Z", "-enddate", "21000101000000Z", "-notext"])
+        _sh(["openssl", "x509", "-in", "%s/%s.pem" % (d, name), "-outform", "DER", "-out", der])
+    return open(der, "rb").read(), "%s/%s.key" % (d, name), _epoch("20100101000000Z"), _epoch("21000101000000Z")
+
+
+def ec_sign(keyfile, data):
+    return rsa_sign(keyfile, data)          # openssl dgst -sha256 -sign works for EC keys too (DER ECDSA-Sig-Value)
